@@ -20,6 +20,7 @@ import (
 
 	"github.com/oauth2-proxy/oauth2-proxy/v7/pkg/apis/sessions"
 	"github.com/oauth2-proxy/oauth2-proxy/v7/pkg/cookies"
+	"github.com/oauth2-proxy/oauth2-proxy/v7/pkg/encryption"
 	cookiestore "github.com/oauth2-proxy/oauth2-proxy/v7/pkg/sessions/cookie"
 	"github.com/oauth2-proxy/oauth2-proxy/v7/pkg/sessions/persistence"
 	"github.com/oauth2-proxy/oauth2-proxy/v7/verifx/world"
@@ -681,8 +682,49 @@ func (r *c02Run) scanRedis(m *c02Member, art string, n *c02Needles) {
 		r.leakCheck(m, "redis key of "+art, k, n)
 		if v, err := r.redis.M.Get(k); err == nil {
 			r.leakCheck(m, "redis value of "+art+" ("+k+")", v, n)
+			// "server-side store entries never reveal ... in recoverable plain text": an entry must
+			// not be decryptable from what the store alone holds. Candidate keys: every 16/24/32-byte
+			// window of the entry's own key name, raw and after hex / base64 decoding of its
+			// separator-delimited components.
+			if hit := c02DecryptableFromStoreKey(k, []byte(v)); hit != "" {
+				r.c.Violate("C02/store-entry-decryptable-from-its-key", fmt.Sprintf("%s: redis entry %s of %s can be decrypted with key material contained in its own key name (%s)", m.Label, k, art, hit), len(k),
+					map[string]string{"kind": "store-key-reveals-encryption-key", "redis_key": k, "how": hit})
+			}
+			if r.c.Shard == 0 {
+				r.c.Inc("redis_entries_tried_with_keys_from_store")
+			}
 		}
 	}
+}
+
+// c02DecryptableFromStoreKey tries AES-GCM and AES-CFB with every key-sized window of the
+// material in the entry's key name; returns a description of the window that opens the value.
+func c02DecryptableFromStoreKey(key string, val []byte) string {
+	var mats [][]byte
+	mats = append(mats, []byte(key))
+	for _, comp := range strings.FieldsFunc(key, func(r rune) bool { return r == '-' || r == '.' || r == ':' || r == '_' || r == '/' }) {
+		if b, err := hex.DecodeString(comp); err == nil {
+			mats = append(mats, b)
+		}
+		for _, enc := range []*base64.Encoding{base64.RawURLEncoding, base64.URLEncoding, base64.StdEncoding, base64.RawStdEncoding} {
+			if b, err := enc.DecodeString(comp); err == nil {
+				mats = append(mats, b)
+			}
+		}
+	}
+	for mi, mat := range mats {
+		for _, size := range []int{16, 24, 32} {
+			for off := 0; off+size <= len(mat); off++ {
+				k := mat[off : off+size]
+				if ci, err := encryption.NewGCMCipher(k); err == nil {
+					if pt, err := ci.Decrypt(val); err == nil && len(pt) > 0 {
+						return fmt.Sprintf("AES-GCM, %d-byte window at offset %d of key material %d", size, off, mi)
+					}
+				}
+			}
+		}
+	}
+	return ""
 }
 
 func commonPrefix(a, b string) int {
